@@ -281,6 +281,7 @@ class SimPopen:
         self._own_group = bool(start_new_session) or process_group == 0
         self._orphan_end = None  # virtual time until which a descendant of the helper keeps the pipes open
         self._orphan_killed = False
+        self._orphan_escaped = False
         self._chunks, self._drip, self._kill_t = [], None, None
         self._inherited_done = False
         if shell or preexec_fn is not None:
@@ -300,6 +301,7 @@ class SimPopen:
         if kind == "orphan":
             life = self._plan.get("life", "inf")
             self._orphan_end = INF if life in (None, "inf") else self._spawn_t + float(life)
+            self._orphan_escaped = bool(self._plan.get("escaped"))
         if kind == "spawn_fail":
             en = self._plan.get("errno", _errno.EAGAIN)
             w.event("helper", self._req, self._idx, "spawn_fail", en)
@@ -370,6 +372,12 @@ class SimPopen:
             script = self._script
         mode = self._stdin_mode()
         oc = w.helper_outcome(script, mode, self._stdin_data if mode == "data" else b"", self._script_args)
+        if mode == "inherit" and oc.get("state") == "blocked-on-stdin" and getattr(w, "session", None) is not None:
+            # the helper shares the daemon's request pipe and reads it: whatever request bytes are waiting there
+            # (a pipelining client) are its input, and are gone for the daemon
+            stolen = w.session.steal_for_current_helper(self)
+            if stolen:
+                oc = w.helper_outcome(script, "data", stolen, self._script_args)
         self._intrinsic = oc
         plan, kind = self._plan, self._plan.get("kind", "ok")
         state = oc["state"]  # exit | never-ends | blocked-on-stdin
@@ -590,8 +598,8 @@ class SimPopen:
         """os.killpg on the helper's own process group: the helper and everything it started"""
         w = self.world
         self.send_signal(sig)
-        if self._orphan_end is not None and not self._orphan_killed and self._orphan_end > w.clock.now \
-                and sig in (signal.SIGKILL, signal.SIGTERM, signal.SIGINT, signal.SIGHUP, signal.SIGQUIT):
+        if self._orphan_end is not None and not self._orphan_killed and not self._orphan_escaped \
+                and self._orphan_end > w.clock.now and sig in (signal.SIGKILL, signal.SIGTERM, signal.SIGINT, signal.SIGHUP, signal.SIGQUIT):
             self._orphan_killed = True
             w.event("helper", self._req, self._idx, "descendants-killed", int(sig))
             w.probe("helper-descendants-killed")
